@@ -179,7 +179,13 @@ def state_case_st():
     avol = st.one_of(st.integers(1, 40), st.integers(1, 40), st.integers(1, 40), st.integers(0, 2))
     bid = st.tuples(st.just("place"), st.just(True), bvol, st.integers(0, 9), st.integers(92, 99))
     ask = st.tuples(st.just("place"), st.just(False), avol, st.integers(0, 9), st.integers(101, 108))
+    # a few orders far from the touch, with large volumes and trader ids (values that do not fit 16 / 24 / 31 bits;
+    # at most 54 orders of at most 2^26 each, so a side's resting volume stays below 2^32)
+    far_bid = st.tuples(st.just("place"), st.just(True), st.sampled_from([2**16 + 1, 2**24 + 7, 2**26 + 5]), st.sampled_from([9, 2**31 + 1]), st.integers(1, 91))
+    far_ask = st.tuples(st.just("place"), st.just(False), st.sampled_from([2**16 + 3, 2**26 + 3]), st.sampled_from([9, 2**32 - 1]), st.sampled_from([109, 2**16 + 1, (2**32 - 2) // 10]))
     op = st.one_of(
+        far_bid,
+        far_ask,
         bid,
         ask,
         st.tuples(st.just("place"), st.just(True), st.integers(1, 30), st.integers(0, 9), st.integers(96, 104)),
